@@ -35,7 +35,9 @@ RULE = ('Generated sequences of EVENT/BINARY_EVENT packets (ids None, 0, '
         "transport's frames, or a tuple/bytes return value, or events sent "
         'by a client while its own disconnect is in progress (re-entrant on '
         'the threaded server, suspended disconnect handler on the asyncio '
-        'server).')
+        'server), or events of a connected client while the CONNECT of its '
+        'transport for a sibling namespace is still being decided by a '
+        'suspended (asyncio) / re-entered (threads) connect handler.')
 ASSUMPTIONS = [
     'handlers are inline harness functions that do not emit',
     'attachments are interleaved with nothing else from the same transport',
